@@ -12,7 +12,8 @@ SPEC = dict(
          "right/wrong/empty/junk/non-base64 payloads, <response> (SASL and SASL2), <abort>, deliver, bind, session, "
          "message/presence/iq with from in {absent, own full, own bare, victim's, garbage} and to in {victim, server, self, nobody, "
          "other domains, absent}, stream close}: every word of length 2 before any stream header, lengths 1..3 (quick) / 1..4 (thorough) "
-         "over a 24-symbol alphabet and length 4 (quick) / 5 (thorough) over an 11-symbol alphabet after a stream header (a word whose "
+         "over a 24-symbol alphabet and length 4 (quick) / 5 (thorough) over an 11-symbol alphabet after a stream header, length 2 (quick) / 3 (thorough) over the 24 symbols after a "
+         "correct PLAIN login and 3 / 4 over the 11 symbols after a SASL2 login with inline bind (a word whose "
          "connection died after k symbols stands for all words with that prefix), plus seeded random scripts up to 20 elements "
          "(mostly starting with a correct login); a fresh server, victim login and attacker connection per script. Every line compares "
          "with the Lean model: canonical elements received by attacker and victim, stanzas the attacker's QXmppIncomingClient emitted "
